@@ -93,4 +93,32 @@ mod verif_kani_windows {
         }
         assert!(block::block_hash::NumericWindows::BITS == 42 && block::block_hash::IndexWindows::BITS == 47);
     }
+
+    /// the four window methods: first item of each == encoding of the first 7 symbols, index windows tagged with the
+    /// EFFECTIVE block size index (log for block hash 1, log + 1 for block hash 2 — 31 at the largest block size)
+    #[kani::proof]
+    #[kani::unwind(66)]
+    fn windows_methods_first_item() {
+        let h = any_valid_norm::<64, 32>();
+        let l1 = h.len_blockhash1 as usize;
+        let l2 = h.len_blockhash2 as usize;
+        let a = h.block_hash_1_numeric_windows().next();
+        let b = h.block_hash_1_index_windows().next();
+        let c = h.block_hash_2_numeric_windows().next();
+        let d = h.block_hash_2_index_windows().next();
+        if l1 >= 7 {
+            assert!(a == Some(enc(&h.blockhash1, 0)));
+            assert!(b == Some(enc(&h.blockhash1, 0) | ((h.log_blocksize as u64) << 42)));
+        } else {
+            assert!(a.is_none() && b.is_none());
+        }
+        if l2 >= 7 {
+            assert!(c == Some(enc(&h.blockhash2, 0)));
+            assert!(d == Some(enc(&h.blockhash2, 0) | ((h.log_blocksize as u64 + 1) << 42)));
+        } else {
+            assert!(c.is_none() && d.is_none());
+        }
+        assert!(h.block_hash_1_numeric_windows().len() == if l1 >= 7 { l1 - 6 } else { 0 });
+        assert!(h.block_hash_2_index_windows().len() == if l2 >= 7 { l2 - 6 } else { 0 });
+    }
 }
